@@ -212,7 +212,9 @@ def hyp_C03(ctx, case):
             if not e1['init']: continue
             for e2 in es:
                 if e2 is e1: continue
-                if not (ctx.types[a] == 'time-based' and e2['kind'] == 'p' and not e2['init']):
+                # (a delayed start - an initial event after 0 replacing the step at 0 - means nothing is produced at 0)
+                late = any(f'S{i}' == a and t0 > 0 for i, t0 in case.get('init', []))
+                if not (ctx.types[a] == 'time-based' and e2['kind'] == 'p' and not e2['init'] and not late):
                     if 'shared_init_slot' not in bad: bad.append('shared_init_slot')   # F10
     # behaviour side
     for k, b in enumerate(case['beh']):
@@ -344,6 +346,15 @@ def P_C16(ctx, log, **kw):
                     out.append(f'{writer} called set_data towards {dest} without an async_requests connection and was not refused (run ended with {kw.get("outcome_kind")})')
                 break
             pending[dest][(attr, f'{writer}.{went}')] = tok
+        elif l[0] == 'GETDATA':
+            _, asker, dest, attr = l
+            if not any(e['asyn'] and e['a'] == dest and e['b'] == asker for e in ctx.edges):
+                if kw.get('outcome_kind') != 'async':
+                    out.append(f'{asker} called get_data towards {dest} without an async_requests connection and was not refused (run ended with {kw.get("outcome_kind")})')
+                break
+            if not any(x[0] == 'GOTDATA' and x[1:4] == l[1:4] for x in log[n + 1:]) and kw.get('outcome_kind') == 'async':
+                out.append(f'{asker} called get_data towards {dest} over an async_requests connection and was refused')
+                break
         elif l[0] == 'BEGIN':
             sid = l[1]
             got = {(a, k): v for a, m in l[4].get('e', {}).items() for k, v in m.items() if str(v).startswith('set')}
